@@ -103,6 +103,7 @@ fn explore(ctx: &Ctx) -> Outcome {
     rest.extend(lzfam::header_boundaries(ctx.tier));
     // large inputs, each described by a recipe (replayable)
     rest.extend(lzfam::big_inputs(ctx.tier, false));
+    rest.extend(lzfam::dense_runs(ctx.tier));
     let t = rest
         .par_iter()
         .fold(Tally::new, |mut t, inp| {
